@@ -159,7 +159,16 @@ def sizeform(prog, fn, v, depth=0, _seen=None):
                         continue
                     return bad('callee %s returns different forms' % tgt.name)
             if out.kind == 'AFFINE' and any(a[0] == 'len' for a in out.terms) and not (v.args and strip(v.args[0]).kind == 'param'):
-                return bad('length form of a different object')
+                # a method of a sub-object (`self.store.occupied()`): its lengths are lengths of self.<that field>.<...>
+                recv = v.args[0] if v.args else None
+                seen_ = 0
+                while recv is not None and strip(recv).kind == 'ref' and not strip(recv).fields() and seen_ < 4:
+                    recv = strip(recv).args[0]
+                    seen_ += 1
+                pre = prog.self_field(strip(recv)) if recv is not None else None
+                if pre is None:
+                    return bad('length form of a different object')
+                return Form(out.kind, {(('len', tuple(pre) + tuple(a[1])) if a[0] == 'len' else a): c for a, c in out.terms.items()}, out.const)
             return out
         if name == 'len' and v.args:
             vf = vec_field_of(prog, v.args[0])
